@@ -206,6 +206,13 @@ def check_dispatch(ctx: Check, tree: Tree) -> None:
         for d in delegates:
             if len(d.args) != 2 or unparse(d.args[1]) != builder_param:
                 problems.append(f"delegation `{unparse(d)}` does not pass the builder on")
+        if t == "TwoBodyDecay":
+            # "one specific decay": exactly the given key is written - no search over the registered keys
+            sel_param = fn.args.args[1].arg if len(fn.args.args) > 1 else None
+            if len(stores) != 1 or unparse(stores[0].targets[0].slice) != sel_param:
+                problems.append(f"does not store under exactly the given decay `{sel_param}` ({[unparse(s_.targets[0]) for s_ in stores]})")
+            if any(isinstance(n, (ast.For, ast.While, ast.ListComp, ast.SetComp, ast.GeneratorExp, ast.DictComp)) for n in ast.walk(fn)):
+                problems.append("searches the registered decays: a selection of ONE decay can then change several nodes (e.g. all helicity combinations of the node)")
         ctx.verdict(not problems, "R-DISPATCH", f"{cls.qual}.assign[{t}]::reaches-store", tree.loc(fn), f"assign[{t}] ends in the single store of the given builder ({'direct' if stores else 'delegating'})", problems or None)
     # by name: compares the parent particle's name, iterates all keys, stores under the iterated key
     fn = impls.get("str")
